@@ -2,7 +2,7 @@
 # usage: tools/try_mutant.sh <patch.diff> <C17|C18|C19> [budget_s] [tier]
 # Applies a seeded change to /repo, runs the check, and ALWAYS restores /repo.
 set -u
-patch="$1"; prop="$2"; budget="${3:-60}"; tier="${4:-quick}"
+patch="$(readlink -f "$1")"; prop="$2"; budget="${3:-60}"; tier="${4:-quick}"
 cd /repo || exit 9
 if [ -n "$(git status --porcelain --untracked-files=no)" ]; then echo "repo not clean"; exit 9; fi
 trap 'git -C /repo checkout -- . ; echo "[repo restored: $(git -C /repo status --porcelain --untracked-files=no | wc -l) modified]"' EXIT
